@@ -281,3 +281,9 @@ func (h *History) lastPost(def *Snap) *Snap {
 	}
 	return h.Steps[len(h.Steps)-1].Post
 }
+
+// ExportModuleGenesis returns the module's exported genesis at ctx.
+func ExportModuleGenesis(b *Base, ctx sdk.Context) json.RawMessage {
+	gm := b.App.ModuleManager.Modules[types.ModuleName].(genesisModule)
+	return gm.ExportGenesis(ctx, b.App.AppCodec())
+}
